@@ -57,6 +57,9 @@ def plan(tier, seed):
             for eps in ((0.01, 0.003) if tier == "quick" else (0.01, 0.003, 0.03)):
                 for explicit in (False, True):
                     g.append({"part": "gruneisen", "xtal": name, "S": S, "g": gexp, "eps": eps, "explicit_delta": explicit})
+            if name in NACX:
+                for nac in ("wang", "gonze"):
+                    g.append({"part": "gruneisen", "xtal": name, "S": S, "g": gexp, "eps": 0.01, "explicit_delta": False, "nac": nac})
         n += len(g)
         groups.append(g)
     meta = {"alphabet": {"crystals": XT, "layouts": 2, "nac": ["none", "wang", "gonze"], "routes": ["analytic", "fd-1e-4", "fd-1e-5", "gonze-fd"],
@@ -249,9 +252,14 @@ def run_gruneisen(case, seed, st):
         c = dict(c0, lattice=(np.array(c0["lattice"]) * scale).tolist())
         ph = phx.make_phonopy(c, case["S"], None)
         ph.force_constants = np.array(st["fc"] * (1 + s) ** (-2 * gexp), dtype="double", order="C")
+        if case.get("nac"):
+            # the non-analytical term is ~ Z Z / (eps V): with Z(V) = Z0 (V/V0)^((1-2g)/2) the whole dynamical matrix scales uniformly
+            npar = _nac(ph, case["xtal"], case["nac"], seed)
+            npar["born"] = npar["born"] * (1 + s) ** ((1 - 2 * gexp) / 2)
+            ph.nac_params = npar
         phs.append(ph)
     want = -((1 + eps) ** (-2 * gexp) - (1 - eps) ** (-2 * gexp)) / (4 * eps)
-    tag = "explicit-delta" if case["explicit_delta"] else "delta-from-volumes"
+    tag = ("explicit-delta" if case["explicit_delta"] else "delta-from-volumes") + ("/nac=%s" % case["nac"] if case.get("nac") else "")
     gr = PhonopyGruneisen(phs[0], phs[1], phs[2], delta_strain=(2 * eps if case["explicit_delta"] else None))
     worst = 0.0
     import phonopy.units as U
@@ -287,6 +295,10 @@ def run_gruneisen(case, seed, st):
     # band path crossing the zone: band connection must keep <e|dD|e> paired with its eigenvalue
     path = [[np.array([0.02, 0.01, 0.0]) + t * np.array([0.48, 0.49, 0.5]) for t in np.linspace(0, 1, 41)],
             [np.array([0.5, 0.0, 0.03]) + t * np.array([-0.45, 0.5, 0.4]) for t in np.linspace(0, 1, 31)]]
+    if case.get("nac"):
+        # segments that start / end exactly at Gamma: the path direction selects the LO-TO splitting there
+        path.append([t * np.array([0.5, 0.0, 0.0]) for t in np.linspace(0, 1, 6)])
+        path.append([np.array([0.3, 0.3, 0.2]) * (1 - t) for t in np.linspace(0, 1, 6)])
     gr.set_band_structure(path)
     bs = gr.get_band_structure()
     for seg_f, seg_g in zip(bs[2], bs[4]):
